@@ -21,15 +21,16 @@ PAGE = 2000
 MTB = 24
 CHAIN = 6140
 
-MC_QUICK = ["MC_arch_q.cfg", "MC_gc_q.cfg", "MC_trusted.cfg"]
-MC_THOROUGH = ["MC_arch_t.cfg", "MC_gc_t.cfg", "MC_gc_p2.cfg", "MC_trusted_t.cfg", "MC_arch_p4.cfg"]
+MC_QUICK = ["MC_arch_q.cfg", "MC_gc_q.cfg", "MC_trusted.cfg", "MC_retrust_q.cfg"]
+MC_THOROUGH = ["MC_arch_t.cfg", "MC_gc_t.cfg", "MC_gc_p2.cfg", "MC_trusted_t.cfg", "MC_arch_p4.cfg", "MC_retrust_t.cfg"]
 # named deviations of the model: checked on HeaderHashesImpl (an invariant must catch them) ...
 DEVIATIONS = ["MC_gc_dev_GCLastPage.cfg"]
 DEVIATIONS_T = ["MC_trusted_dev_TrustedInit.cfg", "MC_arch_dev_ResetKeepsPages.cfg", "MC_arch_dev_ResetKeepsLRU.cfg",
-                "MC_arch_dev_NoPrevCopy.cfg", "MC_arch_dev_StoredFromBlock.cfg"]
+                "MC_arch_dev_NoPrevCopy.cfg", "MC_arch_dev_StoredFromBlock.cfg", "MC_retrust_dev_FixV1.cfg", "MC_retrust_dev_TrustedInit.cfg"]
 # ... or on HeaderHashesSim, which also prints the schedule of the counterexample: it is replayed on the real node
 CE = [("CE_trusted_TrustedInit.cfg", "trusted"), ("CE_arch_ResetKeepsPages.cfg", "arch"), ("CE_arch_ResetKeepsLRU.cfg", "arch"),
-      ("CE_arch_NoPrevCopy.cfg", "arch"), ("CE_arch_StoredFromBlock.cfg", "arch")]
+      ("CE_arch_NoPrevCopy.cfg", "arch"), ("CE_arch_StoredFromBlock.cfg", "arch"),
+      ("CE_retrust_FixV1.cfg", "retrust"), ("CE_retrust_TrustedInit.cfg", "retrust")]
 
 PRIORITY = ["Restarted", "ResetOK", "NoPanic", "Extends", "HeightBound", "ForeignFree", "Retained", "NothingBeyondTip", "TipOK",
             "ResetDone", "HeightsStable"]
@@ -58,6 +59,8 @@ def to_real(hist, kind):
             st = {"op": op, "h": real(s["h"])}
         elif op == "look":
             st = {"op": op, "i": real(s["i"])}
+        elif op == "retrust":
+            st = {"op": op, "t": real(s["t"])}
         elif op == "crash":
             st = {"op": op, "at": s.get("at", "")}
         else:
@@ -120,6 +123,28 @@ def random_world(rnd, kind, nops, maxblk):
             # "to" targets below the real height are skipped by the driver, so aim high
             hh = max((s.get("to", 0) for s in sched if s["op"] == "hdr"), default=0)
             bh = max((s.get("to", 0) for s in sched if s["op"] == "blk"), default=0)
+    if kind == "retrust":
+        # a database synchronised from genesis gets a TrustedHeader configured in a later page, then lives on
+        top = max([x.get("to", 0) for x in sched if x["op"] == "hdr"] + [0])
+        if top < PAGE + 10:
+            top = rnd.choice([PAGE + 700, 2 * PAGE, 2 * PAGE + 1, 3 * PAGE - 1, 5000])
+            sched.append({"op": "hdr", "to": top})
+        pg = rnd.randrange(1, top // PAGE + 1) * PAGE
+        tt = min(top, rnd.choice([pg, pg + 1, pg + PAGE - 1, pg + rnd.randrange(2, PAGE - 1), top]))
+        tail = [{"op": "retrust", "t": tt}, {"op": "look", "i": 0}]
+        h = top
+        for _ in range(rnd.randrange(3, 8)):
+            r = rnd.random()
+            if r < 0.4 and h < CHAIN - 60:
+                h = min(CHAIN - 40, h + rnd.choice([1, 2, 1999, 2000, 2001, rnd.randrange(1, 1500)]))
+                tail.append({"op": "hdr", "to": h})
+            elif r < 0.6:
+                tail.append({"op": "flush"})
+            elif r < 0.8:
+                tail.append({"op": "stop"})
+            else:
+                tail.append({"op": "crash", "at": ""})
+        sched = [x for x in sched if x["op"] not in ("reset",)] + tail + [{"op": "stop"}, {"op": "look", "i": 0}]
     return {"kind": kind, "t": t, "gcp": rnd.choice([5, 7]), "src": "random", "sched": sched}
 
 
@@ -147,6 +172,14 @@ def hand_worlds():
         {"op": "stop"}, {"op": "hdr", "to": 2500}, {"op": "flush"}, {"op": "crash", "at": ""}, {"op": "hdr", "to": 2600}, {"op": "stop"},
         {"op": "hdr", "to": 3999}, {"op": "flush"}, {"op": "crash", "at": ""}, {"op": "hdr", "to": 4100}, {"op": "flush"}, {"op": "stop"},
         {"op": "look", "i": 0}]})
+    # an existing database synchronised from genesis gets a TrustedHeader configured afterwards (inside / at the start /
+    # at the end of a later page; header height equal to it, in its page, at the end of its page, pages above it)
+    for top, tt in ((5000, 4500), (4000, 4000), (3999, 3999), (4600, 4001), (5999, 4500), (6000, 2500), (4001, 4001), (4500, 4000),
+                    (2000, 2000), (3999, 2000), (4000, 3999)):
+        ws.append({"kind": "retrust", "t": 0, "gcp": 5, "src": "hand", "sched": [
+            {"op": "hdr", "to": top}, {"op": "blk", "to": 30}, {"op": "flush"}, {"op": "retrust", "t": tt}, {"op": "look", "i": 0},
+            {"op": "hdr", "to": top + 1}, {"op": "flush"}, {"op": "crash", "at": ""}, {"op": "look", "i": 0},
+            {"op": "hdr", "to": min(CHAIN - 40, top + 2001)}, {"op": "stop"}, {"op": "look", "i": 0}]})
     return ws
 
 
@@ -232,11 +265,13 @@ def run_ext(ctx):
     ce_futs = [(pool.submit(ce, cfg), kind) for cfg, kind in CE]
     # 2. schedules generated by TLC
     worlds = []
-    n_each = {"arch": 2, "gc": 2, "trusted": 3} if q else {"arch": 36, "gc": 16, "trusted": 32}
-    for i, kind in enumerate(("arch", "gc", "trusted")):
+    n_each = {"arch": 2, "gc": 2, "trusted": 3, "retrust": 2} if q else {"arch": 36, "gc": 16, "trusted": 32, "retrust": 24}
+    for i, kind in enumerate(("arch", "gc", "trusted", "retrust")):
         hs = ctx.tlc_sim("headerhashes", "HeaderHashesSim.tla", "Sim_%s.cfg" % kind, num=30 if q else 600, depth=70,
                          timeout=300, seed=ctx.seed * 10 + i)
         hs = dedupe(hs, 11)
+        if kind == "retrust":
+            hs = [h for h in hs if any(x["op"] == "retrust" for x in h[:8])]
         hs.sort(key=lambda h: (interesting(h), json.dumps(h)))
         head = hs[: n_each[kind] * 4]
         rnd.shuffle(head)
@@ -264,7 +299,8 @@ def run_ext(ctx):
         ces.sort(key=lambda c: (len(c["hist"]), json.dumps(c["hist"])))
         per, taken = {}, []
         for c in ces:
-            t = c["hist"][0]["t"]
+            t = (c["hist"][0]["t"], [x["t"] for x in c["hist"] if x["op"] == "retrust"][:1])
+            t = json.dumps(t)
             if per.get(t, 0) < (1 if q else 12):
                 per[t] = per.get(t, 0) + 1
                 taken.append(c)
@@ -279,9 +315,9 @@ def run_ext(ctx):
     dev_futs = [pool.submit(dev, cfg) for cfg in (DEVIATIONS if q else DEVIATIONS + DEVIATIONS_T)]
     # 3. seeded random and hand-made worlds
     hw = hand_worlds()
-    worlds += hw[:2] + hw[3:] if q else hw
+    worlds += hw[:2] + hw[3:9] if q else hw
     for i in range(2 if q else 60):
-        kind = ("arch", "gc", "trusted", "arch")[i % 4] if not q else ("arch", "trusted")[i % 2]
+        kind = ("arch", "gc", "trusted", "retrust")[i % 4] if not q else ("arch", "trusted")[i % 2]
         worlds.append(random_world(rnd, kind, 14 if q else 22, 2300 if q else 6100))
     if not q:
         for kind in ("gc", "gc"):
@@ -357,8 +393,9 @@ def drive_and_judge(ctx, worlds, q, join=None, selftests=True):
         w = min(names, key=lambda n: PRIORITY.index(n) if n in PRIORITY else len(PRIORITY))
         sig = {"part": "headerhashes", "kind": w, "node": wd["kind"], "at": ev["event"] if ev["event"] != "step" else ev["op"],
                "cause": cause(ev) if w in ("Restarted", "Extends", "ResetOK", "NoPanic") else ""}
-        if wd["kind"] == "trusted":
-            t = wd["t"]
+        rt = [x["t"] for x in wd["sched"] if x["op"] == "retrust"]
+        if wd["kind"] == "trusted" or rt:
+            t = wd["t"] if wd["kind"] == "trusted" else rt[0]
             sig["trusted_phase"] = {0: "page-start", 1: "page-start+1", PAGE - 1: "page-end"}.get(t % PAGE, "inside") + ("" if t >= PAGE else "/page0")
         small = {k: v for k, v in ev.items() if k != "obs"}
         obs = ev.get("obs") or {}
